@@ -636,7 +636,27 @@ class StmtMixin:
         return [(st, NORMAL)]
 
     def ex_Delete(self, s, st):
-        raise EngineError("del statement")
+        """`del obj[key]` on an object whose class has an assumed `ext:<Class>.__delitem__[key]` (an attribute dictionary)."""
+        if len(s.targets) != 1 or not isinstance(s.targets[0], ast.Subscript):
+            raise EngineError("del statement")
+        tgt = s.targets[0]
+        out = []
+        for s2, vals in self.ev_list_top([tgt.value, tgt.slice], st):
+            if isinstance(vals, Raised):
+                out.append(self._raise(s2, vals))
+                continue
+            base, k = vals
+            if isinstance(base.t, TOpt):
+                self.partial(s2, z3.Not(sym.opt_is_none(base)), "TypeError", tgt)
+                base = sym.opt_val(base)
+            keyed = None
+            if isinstance(base.t, TRef) and k.const is not None and isinstance(k.const.v, str):
+                keyed = self.reg.funs.get(f"ext:{base.t.cls}.__delitem__[{k.const.v}]")
+            if keyed is None:
+                raise EngineError(f"del statement on {ast.unparse(tgt)} (no assumed __delitem__ for that key)")
+            for s4, r in self.call_contract(keyed, [base, k], {}, s2, tgt, params=keyed.types.get("__params__")):
+                out.append(self._raise(s4, r) if isinstance(r, Raised) else (s4, NORMAL))
+        return out
 
     def ex_Global(self, s, st):
         raise EngineError("global statement")
